@@ -20,22 +20,24 @@ MANIFEST = dict(
         category="proof",
         technique="Lean 4 theorems over a hand-written model of save_file/load_file/load_lines and of open()'s text layer "
                   "+ differential correspondence with the implementation on real files",
-        text="PARTIAL BY NATURE. Proved in Lean (unbounded in text length, number of lines, existing file content), for an "
-             "abstract codec assumed stateless, ASCII-compatible and inverse on encodable text (Codec.Good; the hypothesis is "
-             "discharged for latin-1 and for a 7-bit codec, and only differentially validated for utf-8/cp1252): "
-             "C15_disk_bytes (write modes t/b/wt/wb and at on a missing file: disk = encode(text.replace('\\n', EOL)) for every EOL "
-             "incl. custom ones, no hypothesis on the text), C15_disk_dict, C15_roundtrip_std (EOL LF/CRLF/CR, text without '\\r'), "
-             "C15_roundtrip_custom (ASCII custom EOL incl. LFCR whose non-'\\n' characters do not occur in the text; built on "
-             "replace_roundtrip), C15_bytes_verbatim / C15_bytes_append / C15_bytes_load (bytes stored, appended and loaded "
-             "verbatim under every mode/EOL/codec), C15_lines (list of str through the text layer is one line per EOL and "
-             "load_lines returns exactly the lines), C15_lines_binary (read_mode 'b': the lines followed by one empty line), "
-             "C15_append_text (standard EOL: at adds to the existing content, one stream, no second BOM) and "
-             "C15_append_roundtrip. C15_append_partial / C15_lines_disk_partial need codec.bom = [] on the manual (binary) "
-             "path; C15_append_bom_cex and C15_lines_bom_cex prove that with utf-8-sig the code puts a BOM in the middle of "
-             "the file (known findings C15-a, C15-b). NOT provable in the model: 'after save_file returns the data is "
-             "completely on disk' - the model writes through; the real code relied on CPython reference counting to close "
-             "the handle (close was referenced, not called; fix C15-close). It is covered observationally only: bytes are "
-             "read back through a fresh descriptor right after the call while the handle is kept alive by the harness.",
+        text="PARTIAL BY NATURE. Proved in Lean (unbounded in text length, number of lines, existing file content), the encoding being "
+             "an abstract codec: C15_disk_bytes / C15_disk_dict (every codec, every text, modes t/b/wt/wb and at on a missing file, every "
+             "EOL incl. LFCR and custom ones: save_file succeeds and disk = text.replace('\\n', EOL).encode(encoding), other files "
+             "untouched); C15_bytes_verbatim / C15_bytes_fresh / C15_bytes_append / C15_bytes_load (bytes stored, appended and loaded "
+             "verbatim under every mode/EOL/codec). Under the hypothesis Codec.Good (encoder stateless and character-wise, "
+             "ASCII-compatible, decode . encode = id on encodable text; discharged in Lean for latin-1 and for a 7-bit codec with the "
+             "UTF-8 signature, only differentially validated for the utf-8 / utf-8-sig / cp1252 models): C15_roundtrip (text without "
+             "'\\r', ASCII EOL - LF, CRLF, CR, LFCR or custom - whose non-'\\n' characters do not occur in the text: load_file returns "
+             "the text; built on C15_replace_roundtrip), C15_roundtrip_std, C15_lines (list of str through a text mode with a standard "
+             "EOL: one line per EOL as one stream, load_lines returns exactly the lines), C15_append_roundtrip. C15_append_partial / "
+             "C15_append_text and C15_lines_disk_partial hold for a standard EOL in text mode or a codec without BOM; the full statements "
+             "C15_append_stmt and C15_lines_disk_stmt are refuted (C15_append_bom_cex, C15_lines_bom_cex, witnesses on the utf-8-sig "
+             "model): with utf-8-sig on the manual path (custom EOL, or binary mode for lists) the code writes a BOM in the middle of the "
+             "file (known findings C15-a, C15-b). NOT provable in the model: 'after save_file returns the data is completely on disk' - "
+             "the model writes through; the real code relied on CPython reference counting to close the handle (close was referenced, "
+             "not called; fix C15-close). That clause is covered observationally only: the harness keeps every handle alive, and right "
+             "after the call the handle must be closed and the bytes read through a fresh descriptor complete. load_lines(read_mode='b') "
+             "and non-ASCII custom EOLs are compared differentially only.",
         note="open()'s mode validation, newline translation, universal newlines, BOM handling of the incremental encoder "
              "and the four codecs are modelled by hand and validated by the files.hist / files.enc / files.dec streams.",
         design_ref="5/C15",
